@@ -107,7 +107,7 @@ func runC12(c *core.RunCtx) {
 
 func queryC12(c *core.RunCtx, ra, rk *run, op core.Op) {
 	rng := rand.New(rand.NewSource(atoi(op.S)))
-	q := genQuery(rng, "C11")
+	q := genQuery(rng, "C11", 1)
 	sqlText := q.sql()
 	before := len(rk.points)
 	exp := rk.expected(q, before)
